@@ -2,11 +2,28 @@ package main
 
 // thorough.go: what the thorough tier adds on top of the quick rules.
 
-// thorough runs the whole overlay-mutant battery, re-loads the module in the
-// other build configurations, and records cross-reference tool output.
+import (
+	"encoding/json"
+	"fmt"
+	"os"
+	"os/exec"
+	"path/filepath"
+	"sort"
+	"strings"
+	"sync"
+)
+
+// thorough runs the whole overlay-mutant battery, replays the kept seeded
+// changes of this property against scratch copies of the current working
+// tree, re-loads the module in the other build configurations, and records
+// cross-reference tool output.  None of this changes the verdict on the tree
+// itself (that is the quick rules' job, already run); it measures whether the
+// rules still fire where they must and stay silent where they must.
 func thorough(prop, repo string, p *Prog, r *Report, extra map[string]any) {
 	summarise(runMutants(prop, repo, mutantsFor(prop)), extra, "selftest_mutants")
+	seedBattery(prop, repo, extra)
 	altLoads(repo, extra)
+	crossReference(prop, repo, extra)
 }
 
 // altLoads re-loads the module with tests and for other GOOS values to make
@@ -33,4 +50,162 @@ func altLoads(repo string, extra map[string]any) {
 		out = append(out, m)
 	}
 	extra["alternate_configurations"] = out
+}
+
+// seedBattery applies each kept seeded change of this property to a scratch
+// copy of the repository's current working tree (outside /repo and /verif,
+// removed straight afterwards) and records whether the check reports it.
+func seedBattery(prop, repo string, extra map[string]any) {
+	self, err := os.Executable()
+	if nil != err {
+		return
+	}
+	seedDir := filepath.Join(filepath.Dir(filepath.Dir(self)), "seeded")
+	ents, err := os.ReadDir(seedDir)
+	if nil != err {
+		return
+	}
+	type res struct {
+		Seed     string   `json:"seed"`
+		Outcome  string   `json:"outcome"` /* detected, MISSED, skipped */
+		Findings []string `json:"findings,omitempty"`
+		Breaks   string   `json:"breaks,omitempty"`
+	}
+	var names []string
+	for _, e := range ents {
+		b, err := os.ReadFile(filepath.Join(seedDir, e.Name(), "meta.json"))
+		if nil != err {
+			continue
+		}
+		var m struct {
+			Property string `json:"property"`
+		}
+		if nil != json.Unmarshal(b, &m) || m.Property != prop {
+			continue
+		}
+		names = append(names, e.Name())
+	}
+	sort.Strings(names)
+	out := make([]res, len(names))
+	var wg sync.WaitGroup
+	sem := make(chan struct{}, 6)
+	for i, n := range names {
+		wg.Add(1)
+		go func(i int, n string) {
+			defer wg.Done()
+			sem <- struct{}{}
+			defer func() { <-sem }()
+			out[i] = res{Seed: n}
+			var meta struct {
+				Breaks string `json:"breaks"`
+			}
+			if b, err := os.ReadFile(filepath.Join(seedDir, n, "meta.json")); nil == err {
+				json.Unmarshal(b, &meta)
+				if len(meta.Breaks) > 200 {
+					meta.Breaks = meta.Breaks[:200] + "…"
+				}
+				out[i].Breaks = meta.Breaks
+			}
+			tmp, err := os.MkdirTemp("", "crs-seed-")
+			if nil != err {
+				out[i].Outcome = "skipped"
+				return
+			}
+			defer os.RemoveAll(tmp)
+			if o, err := exec.Command("rsync", "-a", "--exclude=.git", repo+"/", tmp+"/").CombinedOutput(); nil != err {
+				out[i].Outcome, out[i].Findings = "skipped", []string{"copy failed: " + string(o)}
+				return
+			}
+			pc := exec.Command("patch", "-p1", "-s", "-F3", "--no-backup-if-mismatch", "-i", filepath.Join(seedDir, n, "patch.diff"))
+			pc.Dir = tmp
+			if o, err := pc.CombinedOutput(); nil != err {
+				out[i].Outcome, out[i].Findings = "skipped", []string{"patch does not apply to the current tree: " + firstLine(string(o))}
+				return
+			}
+			cc := exec.Command(self, "-property", prop, "-repo", tmp)
+			cc.Env = append(os.Environ(), "CRS_NOSELFTEST=1")
+			o, _ := cc.CombinedOutput()
+			code := -1
+			if nil != cc.ProcessState {
+				code = cc.ProcessState.ExitCode()
+			}
+			for _, l := range strings.Split(string(o), "\n") {
+				if strings.Contains(l, "] ") && strings.Contains(l, " — ") {
+					l = strings.ReplaceAll(l, tmp+"/", "")
+					if len(l) > 260 {
+						l = l[:260] + "…"
+					}
+					out[i].Findings = append(out[i].Findings, l)
+				}
+			}
+			if len(out[i].Findings) > 4 {
+				out[i].Findings = out[i].Findings[:4]
+			}
+			switch code {
+			case 1:
+				out[i].Outcome = "detected"
+			case 0:
+				out[i].Outcome = "MISSED"
+			default:
+				out[i].Outcome = "skipped"
+				out[i].Findings = []string{fmt.Sprintf("checker exit %d: %s", code, firstLine(string(o)))}
+			}
+		}(i, n)
+	}
+	wg.Wait()
+	counts := map[string]int{}
+	for _, x := range out {
+		counts[x.Outcome]++
+	}
+	extra["seeded_changes"] = map[string]any{"counts": counts, "results": out,
+		"note": "each kept change (see /verif/seeded/<name>/meta.json: made by an independent agent, compiles, passes the existing suite, breaks the property with a failing demonstration) is applied to a scratch copy of the current working tree and the quick rules are run on it"}
+}
+
+func firstLine(s string) string {
+	s = strings.TrimSpace(s)
+	if i := strings.Index(s, "\n"); i >= 0 {
+		s = s[:i]
+	}
+	return s
+}
+
+// crossReference runs generic tools whose reports touch this property; the
+// output is recorded, it never decides.
+func crossReference(prop, repo string, extra map[string]any) {
+	type tool struct {
+		name string
+		args []string
+	}
+	var tools []tool
+	switch prop {
+	case "C10":
+		tools = append(tools, tool{"go vet (printf)", []string{"go", "vet", "-printf", "./..."}})
+	case "C20":
+		tools = append(tools, tool{"nilaway", []string{"nilaway", "./..."}})
+	case "C01", "C04", "C19":
+		tools = append(tools, tool{"go vet (copylocks, lostcancel)", []string{"go", "vet", "-copylocks", "-lostcancel", "./..."}})
+	}
+	var out []map[string]any
+	for _, t := range tools {
+		if _, err := exec.LookPath(t.args[0]); nil != err {
+			out = append(out, map[string]any{"tool": t.name, "skipped": "not installed"})
+			continue
+		}
+		c := exec.Command(t.args[0], t.args[1:]...)
+		c.Dir = repo
+		c.Env = goEnv(nil)
+		o, err := c.CombinedOutput()
+		lines := strings.Split(strings.TrimSpace(string(o)), "\n")
+		if len(lines) > 12 {
+			lines = append(lines[:12], "…")
+		}
+		m := map[string]any{"tool": t.name, "output": lines}
+		if nil != err {
+			m["exit"] = err.Error()
+		}
+		out = append(out, m)
+	}
+	if 0 != len(out) {
+		extra["cross_reference"] = out
+	}
 }
